@@ -10,3 +10,12 @@ func TestMain(m *testing.M) {
 	writeStats()
 	os.Exit(code)
 }
+
+// TestChildMain is the entry point of re-executed child processes (see child.go).
+func TestChildMain(t *testing.T) {
+	plan := os.Getenv("VERIF_CHILD_PLAN")
+	if plan == "" {
+		t.Skip("not a child process")
+	}
+	ChildMain(plan)
+}
